@@ -4,7 +4,7 @@
    complex is exactly the clique family, it contains the source with its names, it is well formed,
    and taking the flag complex again adds nothing.  growFlagComplex = rebuild: tested only. *)
 From Coq Require Import String ZArith Bool Arith List.
-From SV Require Import Names Rep Complex Homology Filtration Gen World Small Sweeps NamesFacts RepInv Shapes FlagExt VInv DD MinCycle FlagSound FlagComplete CopyOk VRProofs FlagFinal.
+From SV Require Import Names Rep Complex Homology Filtration Gen World Small Sweeps NamesFacts RepInv Shapes FlagExt VInv DD MinCycle FlagSound FlagComplete CopyOk VRProofs FlagFinal GrowComplete.
 
 Theorem C11_flag_is_clique_complex_upto4_partial : forall c, In c complexes4 -> chk_flag (build c) = true.
 Proof. exact flag_upto4. Qed.
@@ -89,3 +89,33 @@ Theorem C11_flag_complex_idempotent :
     forall B, NoDup B -> 2 <= length B -> (carried r2 B <-> carried r1 B).
 Proof. exact flag_complex_idempotent. Qed.
 Print Assumptions C11_flag_complex_idempotent.
+
+(* "Adding edges to a flag complex and calling growFlagComplex with them yields the same family as building the
+   flag complex of the enlarged graph from scratch."  Stated for any list `news` of simplices of r such that
+   (1) whatever simplex of r has the points of one of them among its points is itself one of them -- new edges just
+   added have no cofaces yet -- and (2) r is flag-complete apart from them: every clique of r's edges that does not
+   contain the points of a new simplex carries a simplex (r was a flag complex before the edges were added).
+   Then growFlagComplex ends normally, keeps the vertex-set reading and every old simplex, and a set of two or more
+   points carries a simplex exactly when it is a clique of r's edges ... *)
+Theorem C11_grow_completes_the_flag_complex :
+  forall r news, vinv r -> news <> [] ->
+  (forall s, In s news -> containsSimplex r s = true) ->
+  let TB := map (basisOf r) news in
+  (forall t, containsSimplex r t = true -> taintb TB (basisOf r t) = true -> In t news) ->
+  (forall B, NoDup B -> 2 <= length B -> clique r B -> taintb TB B = false -> carried r B) ->
+  exists r', growFlagComplex r news = (r', Ok tt) /\ vinv r' /\ ext2b r r' /\
+    forall B, NoDup B -> 2 <= length B -> (carried r' B <-> clique r B).
+Proof. exact growFlagComplex_complete. Qed.
+Print Assumptions C11_grow_completes_the_flag_complex.
+(* ... which is the family flagComplex builds from scratch *)
+Theorem C11_grow_equals_rebuild :
+  forall hp uid r news, vinv r -> news <> [] ->
+  (forall s, In s news -> containsSimplex r s = true) ->
+  let TB := map (basisOf r) news in
+  (forall t, containsSimplex r t = true -> taintb TB (basisOf r t) = true -> In t news) ->
+  (forall B, NoDup B -> 2 <= length B -> clique r B -> taintb TB B = false -> carried r B) ->
+  forall hp1 c, copy_new hp (view_of r) uid = (hp1, c, Ok tt) ->
+  exists r' rF, growFlagComplex r news = (r', Ok tt) /\ flagComplex hp r uid = (hp1, rF, Ok tt) /\
+    forall B, NoDup B -> 2 <= length B -> (carried r' B <-> carried rF B).
+Proof. exact grow_equals_rebuild. Qed.
+Print Assumptions C11_grow_equals_rebuild.
